@@ -256,6 +256,18 @@ func (e *Eth) Plan(c *Ctx) []hist.TxSpec {
 			if op.kind == "lock" || op.kind == "redeem" {
 				out = append(out, e.submit(c, op, "duplicate submission while ongoing"))
 			}
+			// a recorded witness that has not voted yet reports under every other witness's index:
+			// none of these may fill a slot
+			if len(witnesses) > 2 {
+				thief := (int(op.created) + len(witnesses) - 1) % len(witnesses)
+				if w := valByAddr[witnesses[thief]]; w != nil {
+					for j := range witnesses {
+						if j != thief {
+							out = append(out, e.report(c, op, w, int64(j), op.plan != "no", op.owner.Addr, fmt.Sprintf("witness %d reports under the index of witness %d", thief, j)))
+						}
+					}
+				}
+			}
 		}
 		if age < 2 {
 			continue
@@ -283,6 +295,15 @@ func (e *Eth) Plan(c *Ctx) []hist.TxSpec {
 				locker = us[5%len(us)].Addr
 			}
 			out = append(out, e.report(c, op, w, int64(i), success, locker, fmt.Sprintf("witness %d reports success=%v", i, success)))
+			if op.voted == need && op.voted < len(order) {
+				// the next witness's report arrives in the same block as the one that crosses the
+				// threshold: a late report must not trigger the mint/refund a second time
+				j := order[op.voted]
+				op.voted++
+				if w2 := valByAddr[witnesses[j]]; w2 != nil {
+					out = append(out, e.report(c, op, w2, int64(j), success, op.owner.Addr, fmt.Sprintf("late report by witness %d in the block of the decision", j)))
+				}
+			}
 			if op.voted == 2 {
 				// a repeated vote and a vote under a wrong index must not count
 				out = append(out, e.report(c, op, w, int64(i), !success, op.owner.Addr, "repeated vote by the same witness"))
